@@ -130,6 +130,17 @@ def _cases(draw, tier):
             first = vals[0]
             while first[0] == 'bin':
                 first = first[2]
+            if first[0] == 'num' and first[2] == 'chr' and first[1] == 92:
+                # after '\' any further quote would also allow the reading as one string: nothing decides between the two
+                def _nochr(e):
+                    if isinstance(e, list):
+                        if len(e) == 3 and e[0] == 'num' and e[2] == 'chr' and e is not first:
+                            return ['num', e[1], 'dec']
+                        return [_nochr(x) for x in e]
+                    return e
+                vals = [vals[0]] + [_nochr(v) for v in vals[1:]]
+                if vals[0] is not first:
+                    vals[0] = ['bin', vals[0][1], first, _nochr(vals[0][3])]
             if first[0] == 'num' and first[2] == 'chr':
                 feats.add('list-starts-with-character-literal')
             if w > 1 and general['endian'] == 'little':
